@@ -92,8 +92,11 @@ theorem C11_whole (s : St) : s.wireBytes = (s.wire.map (·.2)).flatten := rfl
     (compiled as a receive that the AST shows as a RangeStmt, hence no "recv" site) and in the post-shutdown drain -/
 theorem C11_single_writer :
     (Gen.utilSites.filter (fun x => x.2.1 = "connwrite")) = [("MessageStream.outbound", "connwrite", "m.conn")] ∧
-    (Gen.utilSites.filter (fun x => x.2.1 = "go" ∧ x.2.2 = "m.outbound")) = [("NewMessageStream", "go", "m.outbound")] ∧
-    (Gen.utilSites.filter (fun x => x.2.1 = "recv" ∧ x.2.2 = "m.Outbound")) = [("MessageStream.shutdown", "recv", "m.Outbound")] := by
+    (Gen.utilSites.filter (fun x => x.2.1 = "go" ∧ x.2.2 = "m.outbound")).length = 1 ∧
+    -- besides outbound's own `range`, the queue is received from at exactly one site (the post-shutdown drain,
+    -- in whichever function it lives)
+    (Gen.utilSites.filter (fun x => x.2.1 = "recv" ∧ x.2.2 = "m.Outbound")).length = 1 ∧
+    (Gen.utilSites.filter (fun x => x.2.1 = "recv" ∧ x.2.2 = "m.Outbound" ∧ x.1 = "MessageStream.outbound")) = [] := by
   decide
 
 end OFV.Props.C11
